@@ -41,6 +41,16 @@ class Agent(Symbol):
 
 
 @dataclass(eq=False)
+class Fellow(Agent):
+    """the field of the top-most super property exists in this subclass only"""
+
+    connected_to: Set[Org] = field(default_factory=set)
+
+    def __repr__(self):
+        return f"Fellow({self.name})"
+
+
+@dataclass(eq=False)
 class Boss(Role[Agent], Symbol):
     agent: Agent
     head_of: Org = None
@@ -54,7 +64,12 @@ class Boss(Role[Agent], Symbol):
 
 
 @dataclass
-class AffiliatedWith(PropertyDescriptor):
+class ConnectedTo(PropertyDescriptor):
+    pass
+
+
+@dataclass
+class AffiliatedWith(ConnectedTo):
     pass
 
 
@@ -104,10 +119,11 @@ class LinkedTo(PropertyDescriptor, TransitiveProperty):
 Agent.works_for = WorksFor(Agent, "works_for")
 Agent.member_of = MemberOf(Agent, "member_of")
 Agent.affiliated_with = AffiliatedWith(Agent, "affiliated_with")
+Fellow.connected_to = ConnectedTo(Fellow, "connected_to")
 Boss.head_of = HeadOf(Boss, "head_of")
 Org.members = Member(Org, "members")
 Org.part_of = PartOf(Org, "part_of")
 Org.has_part = HasPart(Org, "has_part")
 Org.linked_to = LinkedTo(Org, "linked_to")
 
-CLASSES = {"Org": Org, "Agent": Agent, "Boss": Boss}
+CLASSES = {"Org": Org, "Agent": Agent, "Fellow": Fellow, "Boss": Boss}
